@@ -375,6 +375,99 @@ func undefCase(c Case, dir string) string {
 	return ""
 }
 
+// ---- C14 (CLI clauses): down runs exactly once, last, whether the target succeeded or failed ----
+
+func hooksCase(c Case, dir string) string {
+	trace := filepath.Join(dir, "trace")
+	y := fmt.Sprintf(`contexts:
+  cx:
+    up: "echo up >> %[1]s"
+    down: "echo down >> %[1]s"
+    before: "echo cb >> %[1]s"
+    after: "echo ca >> %[1]s"
+  unused:
+    up: "echo up-unused >> %[1]s"
+    down: "echo down-unused >> %[1]s"
+tasks:
+  ok:
+    context: cx
+    command: "echo ok >> %[1]s"
+  ok2:
+    context: cx
+    command: "echo ok2 >> %[1]s"
+  bad:
+    context: cx
+    command: "echo bad >> %[1]s; exit 1"
+  plain:
+    command: "echo plain >> %[1]s"
+pipelines:
+  pok:
+    - task: ok
+    - task: ok2
+      depends_on: [ok]
+  pbad:
+    - task: ok
+    - task: bad
+      depends_on: [ok]
+`, trace)
+	os.WriteFile(filepath.Join(dir, "tasks.yaml"), []byte(y), 0o644)
+	args := []string{"--output", "raw"}
+	if c.Via == "run" {
+		args = append(args, "run")
+	}
+	args = append(args, c.Args...)
+	r, err := runTaskctl(dir, dir, nil, args...)
+	if err != nil {
+		return "infra: " + err.Error()
+	}
+	if strings.Contains(r.out, "panic:") {
+		return "crash: " + firstLines(r.out)
+	}
+	b, _ := os.ReadFile(trace)
+	got := strings.Fields(string(b))
+	usesCx := false
+	for _, a := range c.Args {
+		if a != "plain" {
+			usesCx = true
+		}
+	}
+	nDown, nUp := 0, 0
+	for _, g := range got {
+		if g == "down" {
+			nDown++
+		}
+		if g == "up" {
+			nUp++
+		}
+		if strings.HasSuffix(g, "-unused") {
+			return fmt.Sprintf("hooks of the unused context ran: %v", got)
+		}
+	}
+	if !usesCx {
+		if nDown+nUp != 0 {
+			return fmt.Sprintf("context hooks ran although no target uses the context: %v", got)
+		}
+		return ""
+	}
+	// up exactly once and before every other event of the context (events of context-less tasks do not count)
+	firstCx := -1
+	for i, g := range got {
+		if g != "plain" && firstCx < 0 {
+			firstCx = i
+		}
+	}
+	if nUp != 1 || got[firstCx] != "up" {
+		return fmt.Sprintf("KIND:cli-up:up must run exactly once and before every event of its context: %v", got)
+	}
+	if nDown != 1 {
+		return fmt.Sprintf("KIND:cli-down-count:down ran %d times (exit status %d): %v", nDown, r.code, got)
+	}
+	if got[len(got)-1] != "down" {
+		return fmt.Sprintf("KIND:cli-down-before-later-target:down ran before the events of a later target: %v", got)
+	}
+	return ""
+}
+
 func runOne(c Case, root string) string {
 	dir, err := os.MkdirTemp(root, "case")
 	if err != nil {
@@ -394,6 +487,8 @@ func runOne(c Case, root string) string {
 		return argsCase(c, dir)
 	case "undef":
 		return undefCase(c, dir)
+	case "hooks":
+		return hooksCase(c, dir)
 	}
 	return "infra: unknown kind"
 }
@@ -446,6 +541,11 @@ func main() {
 		if strings.HasPrefix(d, "infra:") {
 			fmt.Fprintln(os.Stderr, d)
 			os.Exit(2)
+		}
+		if strings.HasPrefix(d, "KIND:") {
+			parts := strings.SplitN(d, ":", 3)
+			return res.AddViolation(common.Violation{Property: target, Key: fmt.Sprintf("%s:%s|targets=%s|via=%s", target, parts[1], strings.Join(c.Args, ","), c.Via), Desc: c.String() + ": " + parts[2], Config: c},
+				map[string]interface{}{"harness": "cli", "mode": "plain", "property": target, "needs_taskctl": true, "case": c})
 		}
 		if d != "" {
 			return res.AddViolation(common.Violation{Property: target, Key: target + ":" + c.Kind + "|" + c.String(), Desc: c.String() + ": " + d, Config: c},
@@ -546,6 +646,45 @@ func main() {
 				return false
 			}
 			for _, a := range alphabet {
+				if rec(append(cur, a)) {
+					return true
+				}
+			}
+			return false
+		}
+		rec(nil)
+	case "hooks": // every sequence of <=2 (thorough 3) targets over {ok, bad, plain, pok, pbad}, via root action and `run`
+		alphabet := []string{"ok", "bad", "plain", "pok", "pbad"}
+		maxLen := 2
+		if thorough {
+			maxLen = 3
+		}
+		var rec func(cur []string) bool
+		rec = func(cur []string) bool {
+			if len(cur) > 0 {
+				for _, via := range []string{"", "run"} {
+					if do(Case{Kind: "hooks", Args: append([]string{}, cur...), Via: via}) {
+						return true
+					}
+				}
+			}
+			if len(cur) == maxLen {
+				return false
+			}
+			for _, a := range alphabet {
+				// nothing runs after a failing target, and a pipeline listed twice is outside the statement
+				if len(cur) > 0 && (cur[len(cur)-1] == "bad" || cur[len(cur)-1] == "pbad") {
+					continue
+				}
+				dup := false
+				for _, x := range cur {
+					if x == a && (a == "pok" || a == "pbad") {
+						dup = true
+					}
+				}
+				if dup {
+					continue
+				}
 				if rec(append(cur, a)) {
 					return true
 				}
